@@ -65,7 +65,10 @@ Definition trs2acr_q (transposed : bool) (r v : vec3) : mat3 :=
 Definition direction (p o : vec3) : vec3 := unitv (vsub o p).
 Definition azimuth (lat lon : R) (p o : vec3) : R :=
   atan2 (dot (direction p o) (enu_east lat lon)) (dot (direction p o) (enu_north lat lon)).
-Definition elevation (lat lon : R) (p o : vec3) : R := asin (dot (direction p o) (enu_up lat lon)).
+(* elevation_to clips the projection to [-1, 1] before the arcsine (over R the projection of a unit vector on a unit vector is
+   already in that range: Proofs elevation_clip_irrelevant) *)
+Definition clip1 (x : R) : R := Rmax (-1) (Rmin 1 x).
+Definition elevation (lat lon : R) (p o : vec3) : R := asin (clip1 (dot (direction p o) (enu_up lat lon))).
 Definition zenith_distance (lat lon : R) (p o : vec3) : R := PI / 2 - elevation lat lon p o.
 
 (* position/velocity differences: the 6x6 block-diagonal matrix acts on both halves independently *)
@@ -306,6 +309,15 @@ Definition normal_env (p : prec) (a e2 : dy) (x e n u : list dy) : list I.type :
   let e4 := stage_I p e3 [ESub (v_ 2) (v_ 16); ESub (v_ 3) (v_ 17); ESub (v_ 4) (v_ 18)] in
   stage_I p e4 [dot_e (vars 19) (vars 11)].
 
+Definition normal_env_R (a e2 : R) (x e n u : list R) : list R :=
+  let e0 := a :: e2 :: x ++ e ++ n ++ u in
+  let aa := EMul (v_ 0) (v_ 0) in
+  let e1 := stage_R e0 [EMul aa (ESub one_ (v_ 1))] in
+  let e2' := stage_R e1 [ESqrt (EAdd (EMul aa (EAdd (EMul (v_ 11) (v_ 11)) (EMul (v_ 12) (v_ 12)))) (EMul (v_ 14) (EMul (v_ 13) (v_ 13))))] in
+  let e3 := stage_R e2' [EDiv (EMul aa (v_ 11)) (v_ 15); EDiv (EMul aa (v_ 12)) (v_ 15); EDiv (EMul (v_ 14) (v_ 13)) (v_ 15)] in
+  let e4 := stage_R e3 [ESub (v_ 2) (v_ 16); ESub (v_ 3) (v_ 17); ESub (v_ 4) (v_ 18)] in
+  stage_R e4 [dot_e (vars 19) (vars 11)].
+
 Definition well3 (l : list dy) : bool := (length l =? 3)%nat.
 
 Definition small12 (env : nat -> I.type) (e : rexpr) : bool := check_close p128 rel12 e env (DZero false).
@@ -379,6 +391,12 @@ Definition azel_env (p : prec) (lat lon : dy) (pp oo : list dy) (az el : dy) : l
   let diff := [ESub (v_ 5) (v_ 2); ESub (v_ 6) (v_ 3); ESub (v_ 7) (v_ 4)] in
   let e1 := stage_I p e0 (unit_e diff) in
   stage_I p e1 [dot_e (vars 10) (col_e enu2trs_e 0); dot_e (vars 10) (col_e enu2trs_e 1); dot_e (vars 10) (col_e enu2trs_e 2)].
+
+Definition azel_env_R (lat lon : R) (pp oo : list R) (az el : R) : list R :=
+  let e0 := lat :: lon :: pp ++ oo ++ [az; el] in
+  let diff := [ESub (v_ 5) (v_ 2); ESub (v_ 6) (v_ 3); ESub (v_ 7) (v_ 4)] in
+  let e1 := stage_R e0 (unit_e diff) in
+  stage_R e1 [dot_e (vars 10) (col_e enu2trs_e 0); dot_e (vars 10) (col_e enu2trs_e 1); dot_e (vars 10) (col_e enu2trs_e 2)].
 
 Definition half_pi_d : dy := Dy 884279719003555 (-49).   (* np.pi / 2 *)
 Definition pi_d : dy := Dy 884279719003555 (-48).        (* np.pi *)
